@@ -496,11 +496,16 @@ func c19QueueLengths(p *Prog, r *Report) {
 					}
 				}
 			}
+			capExpr := strings.TrimSuffix(strings.TrimPrefix(e.Args[0], "make(chan,"), ")")
 			if !hasLen {
-				continue
+				// a queue of a per-pipe object sized from its socket's option: the option
+				// must be the one of this direction (sendQ <- sendQLen, recvQ <- recvQLen)
+				j := strings.LastIndex(capExpr, ".")
+				if j < 0 || !strings.HasSuffix(strings.ToLower(capExpr[j+1:]), "qlen") {
+					continue
+				}
 			}
 			n++
-			capExpr := strings.TrimSuffix(strings.TrimPrefix(e.Args[0], "make(chan,"), ")")
 			key := p.FuncName(fn) + "/" + e.What
 			// (a) same-base …Len store in this function
 			var lenVal string
@@ -517,8 +522,9 @@ func c19QueueLengths(p *Prog, r *Report) {
 				how = "capacity " + capExpr + " vs " + fld + "Len = " + lenVal + " stored in the same function"
 			default:
 				j := strings.LastIndex(capExpr, ".")
-				ok = j >= 0 && strings.HasSuffix(strings.ToLower(capExpr[j+1:]), "qlen")
-				how = "capacity " + capExpr
+				// the length option of THIS queue: recvQ <- …recvQLen, sendQ <- …sendQLen
+				ok = j >= 0 && strings.ToLower(capExpr[j+1:]) == lf+"len"
+				how = "capacity " + capExpr + " for " + fld
 			}
 			r.Check(ok, R, key, p.InstrPos(e.In), how, "a message queue is built with a capacity that is not the object's queue-length option ("+how+"): GetOption reports one length while another is in force")
 		}
